@@ -369,7 +369,16 @@ pub fn scratch_dir() -> String {
 // ------------------------------------------------------------------------------------------------
 // worker side
 
+extern "C" {
+    fn prctl(option: i32, arg2: u64, arg3: u64, arg4: u64, arg5: u64) -> i32;
+}
+
 pub fn worker_main(check: &mut dyn Check, ctx: &Ctx, trace: bool) {
+    // die with the supervisor (PR_SET_PDEATHSIG, SIGKILL): a worker stuck in a non-terminating case
+    // must not outlive a supervisor that was killed
+    unsafe {
+        prctl(1, 9, 0, 0, 0);
+    }
     crate::obs::install_panic_hook();
     let stdin = std::io::stdin();
     let stdout = std::io::stdout();
